@@ -105,6 +105,44 @@ type fakeNode struct {
 	seed      uint64
 	faultRate int
 	maxLatUS  int
+	// gates (gated cases): the next append of an armed channel stays in flight until released
+	gateMu sync.Mutex
+	gates  map[string]*gate
+}
+
+type gate struct {
+	taken    atomic.Bool // only the first append of the channel is held; later ones pass at once
+	blocked  chan struct{}
+	release  chan struct{}
+	released bool
+}
+
+func (n *fakeNode) arm(chID string) *gate {
+	n.gateMu.Lock()
+	defer n.gateMu.Unlock()
+	if n.gates == nil {
+		n.gates = map[string]*gate{}
+	}
+	g := &gate{blocked: make(chan struct{}), release: make(chan struct{})}
+	n.gates[chID] = g
+	return g
+}
+
+func (n *fakeNode) gateOf(chID string) *gate {
+	n.gateMu.Lock()
+	defer n.gateMu.Unlock()
+	return n.gates[chID]
+}
+
+func (n *fakeNode) releaseAll() {
+	n.gateMu.Lock()
+	defer n.gateMu.Unlock()
+	for _, g := range n.gates {
+		if !g.released {
+			g.released = true
+			close(g.release)
+		}
+	}
 }
 
 func newFakeNode(ticket *atomic.Uint64) *fakeNode {
@@ -209,6 +247,12 @@ func (n *fakeNode) AppendChannelBatch(ctx context.Context, req channelruntime.Ap
 	p.mu.Unlock()
 	if pre > 0 {
 		time.Sleep(pre)
+	}
+	if g := n.gateOf(req.ChannelID.ID); g != nil {
+		if g.taken.CompareAndSwap(false, true) {
+			close(g.blocked)
+			<-g.release
+		}
 	}
 	if f.K == "before" {
 		p.mu.Lock()
